@@ -8,6 +8,9 @@ use crate::Comment;
 pub(crate) struct Writer {
     indent: usize,
     outstring: String,
+    // true while the last thing written is a line comment: it only ends at the next line break,
+    // so whatever is written next must start on a new line
+    line_comment_open: bool,
 }
 
 #[derive(Debug, Clone)]
@@ -50,6 +53,7 @@ impl Writer {
             /* using an initial capacity of 1024 means that usually only MODULE will have to
             reallocate while adding elements. This is a measurable speed improvement. */
             outstring: String::with_capacity(1024),
+            line_comment_open: false,
         }
     }
 
@@ -185,17 +189,30 @@ impl Writer {
                     if !is_included {
                         // don't use self.add_whitespace() here, because comments don't follow indentation rules
                         // if the comment was indented when it was parsed, then the indentation is preserved in the comment
-                        for _ in 0..start_offset {
+                        for _ in 0..self.break_line_comment(start_offset) {
                             self.outstring.push('\n');
                         }
                         self.outstring.push_str(comment);
+                        self.line_comment_open = comment.trim_start_matches(' ').starts_with("//");
                     }
                 }
             }
         }
     }
 
+    // Items can be written in a different order than they were loaded in (position restrictions), and the
+    // item that followed a line comment can be deleted. The next item must not continue the line of the
+    // comment, because it would become a part of the comment.
+    fn break_line_comment(&mut self, offset: u32) -> u32 {
+        if std::mem::take(&mut self.line_comment_open) {
+            offset.max(1)
+        } else {
+            offset
+        }
+    }
+
     fn add_whitespace(&mut self, offset: u32) {
+        let offset = self.break_line_comment(offset);
         if offset == 0 {
             self.outstring.push(' ');
         } else {
